@@ -1668,6 +1668,32 @@ theorem conforms_fsl {n : Nat} {t : Ty} {a : Val} (h : conforms (.fsl n t) a = t
 theorem structValid_eq : UInt8.ofNat Generated.C11.STRUCT_VALID_BYTE = 1 := by decide
 theorem fslValid_eq : UInt8.ofNat Generated.C11.FSL_VALID_BYTE = 1 := by decide
 
+/-- the row of one map entry: key row then value row, under the child options -/
+def entryEnc (o : SortOptions) (k v : Ty) (e : Val) : List UInt8 :=
+  match e with
+  | .tuple [a, b] => encode (childOpts o) k a ++ encode (childOpts o) v b
+  | _ => []
+
+theorem encode_map_eq (o : SortOptions) (k v : Ty) (es : List Val) :
+    encode o (.map k v) (.list es) = listEnc o (es.map (entryEnc o k v)) := by
+  cases es with
+  | nil => simp [encode, listEnc]
+  | cons e es =>
+    simp only [encode, listEnc, List.map_map, Function.comp_def, entryEnc, List.map_cons, List.flatten_cons, List.append_assoc]
+    rfl
+
+theorem conforms_map {k v : Ty} {a : Val} (h : conforms (.map k v) a = true) :
+    a = .null ∨ ∃ es, a = .list es ∧ ∀ e ∈ es, ∃ x y, e = .tuple [x, y] ∧ conforms k x = true ∧ conforms v y = true := by
+  cases a <;> simp [conforms] at h ⊢
+  rename_i es
+  intro e he
+  have := h e he
+  split at this
+  · rename_i x y
+    simp only [Bool.and_eq_true] at this
+    exact ⟨x, y, rfl, this.1, this.2⟩
+  · simp at this
+
 mutual
 /-- **nested order theorem** (no Map / Union): strict byte order of the model's encoding =
 the logical order `cmpN`, for every nesting depth -/
@@ -1727,7 +1753,35 @@ theorem encode_cmpN : (t : Ty) → (o : SortOptions) → (a b : Val) → unionFr
     simp only [conforms] at ha hb
     simp only [encode, cmpN]
     rw [encodeVar_cmp, compareVal_some, compareBytes_of_cmpStrict (encode_cmpN t (childOpts o) a b hu ha hb)]
-  | .map _ _, _, _, _, hu, _, _ => by simp [unionFree] at hu
+  | .map k v, o, a, b, hu, ha, hb => by
+    simp only [unionFree, Bool.and_eq_true] at hu
+    rcases conforms_map ha with rfl | ⟨xs, rfl, hx⟩ <;> rcases conforms_map hb with rfl | ⟨ys, rfl, hy⟩
+    · simp only [encode, cmpN]; exact cmpStrict_eq_iff.mpr rfl
+    · rw [encode_map_eq]; simp only [encode, cmpN]; exact listNull_lt o _
+    · rw [encode_map_eq]; simp only [encode, cmpN]; exact listNull_gt o _
+    · rw [encode_map_eq, encode_map_eq]
+      simp only [cmpN]
+      rw [listEnc_cmp o _ _
+        (by
+          intro x hx'
+          obtain ⟨e, he, rfl⟩ := List.mem_map.mp hx'
+          obtain ⟨p, q, rfl, hp, _⟩ := hx e he
+          intro h'
+          exact encode_ne_nil k _ p hp (List.append_eq_nil_iff.mp h').1)
+        (by
+          intro x hx'
+          obtain ⟨e, he, rfl⟩ := List.mem_map.mp hx'
+          obtain ⟨p, q, rfl, hp, _⟩ := hy e he
+          intro h'
+          exact encode_ne_nil k _ p hp (List.append_eq_nil_iff.mp h').1),
+        lexCompare_map]
+      congr 2
+      exact lexCompare_congr _ _ xs ys (fun x hx' y hy' => by
+        obtain ⟨p, q, rfl, hp, hq⟩ := hx x hx'
+        obtain ⟨p', q', rfl, hp', hq'⟩ := hy y hy'
+        simp only [entryEnc]
+        rw [compareBytes_append_of_cmpStrict _ _ (encode_cmpN k (childOpts o) p p' hu.1 hp hp'),
+          compareBytes_of_cmpStrict (encode_cmpN v (childOpts o) q q' hu.2 hq hq')])
   | .union _ _, _, _, _, hu, _, _ => by simp [unionFree] at hu
 theorem encodeFields_cmpN : (ts : List Ty) → (o : SortOptions) → (xs ys : List Val) → unionFreeAll ts = true →
     conformsAll ts xs = true → conformsAll ts ys = true →
@@ -1768,4 +1822,24 @@ theorem encodeRowN_cmp (fs : List (Ty × SortOptions)) : ∀ (r1 r2 : List Val),
         simp only [encodeRowN, cmpRowN]
         rw [cmpStrict_append_of_cmpStrict _ _ (encode_cmpN t o a b (hu (t, o) (by simp)) h1.1 h2.1),
           ih as bs (fun f hf => hu f (by simp [hf])) h1.2 h2.2, then_some]
+theorem offsetsFrom_cons (s : Nat) (rs : List (List UInt8)) : ∃ tl, offsetsFrom s rs = s :: tl := by
+  cases rs <;> exact ⟨_, rfl⟩
+
+theorem fromBinary_offsets (rows : List (List UInt8)) : ∀ (pre : List UInt8),
+    fromBinary (offsetsFrom pre.length rows) (pre ++ rows.flatten) = rows := by
+  induction rows with
+  | nil => intro pre; rfl
+  | cons r rs ih =>
+    intro pre
+    obtain ⟨tl, htl⟩ := offsetsFrom_cons (pre.length + r.length) rs
+    have h := ih (pre ++ r)
+    simp only [List.length_append] at h
+    simp only [offsetsFrom, List.flatten_cons]
+    rw [htl] at h ⊢
+    simp only [fromBinary]
+    rw [← List.append_assoc] at *
+    rw [h]
+    congr 1
+    rw [List.append_assoc, List.drop_left' rfl, Nat.add_sub_cancel_left, List.take_left' rfl]
+
 end ArrowModel.C11
